@@ -138,6 +138,8 @@ def reachable(case, real, drop_wrapped=False):
 
 def py_e2e_spec(case, t, e):
     """returns list of (why, finding)"""
+    if e.get('malformed'):
+        return []       # the generated program fails under plain python too: skipped, counted in coverage
     if e['keys'] is None or e['rc'] != 0:
         return [('kernprof failed: rc=%s %s' % (e['rc'], e['stderr'][-300:]), None)]
     base_keys = {(f, n) for f, _l, n in e['keys'] if not os.path.isabs(f)}
@@ -450,6 +452,7 @@ def run(tier, seed):
         rule='non-trivial = the selection matches at least one top-level import or the script itself is selected; '
              'distinct by (converted tree, resolved selection, whole-script flag, --prof-imports)',
         samples=samples, in_process_tree_cases=len(trees), end_to_end_runs=e2e_n,
+        end_to_end_malformed_skipped=sum(1 for r in results if (r.get('e2e') or {}).get('malformed')),
         tree_depth_histogram={str(k): v for k, v in sorted(depths.items())}, import_forms=styles,
         selection_spellings=spell,
         hypothesis_holds_on=dict(one_selected_name_per_statement=n_partial, several_selected_names_in_one_statement=n_multi,
